@@ -1,5 +1,141 @@
-/- Driver.Graph — line protocol of the `graph` sub-harness (stub until the unit is built). -/
-import Ioc.Basic
+/-
+  Driver.Graph — line protocol of the `graph` sub-harness: composes M8 (tag text) → M3 (candidates, narrowing)
+  → M2 (factory machine) → M5 (App.run, runners) exactly as the code does, from the scenario line alone.
+  Format: see harness/cmd/harness/sub_graph.go.
+-/
+import Ioc.Match
+import Ioc.App
 namespace Driver.Graph
-def handle (_line : String) : String := "unimplemented"
+open Ioc Ioc.Match Ioc.M2 Ioc.App
+
+structure RowRec where
+  prov : Prov
+  lazy : Bool
+  ocls : OrdClass
+  okey : Int
+
+structure NodeRec where
+  row : Nat
+  early : Nat
+  after : Nat
+  flt : Nat
+  cfg : Nat
+  wired : Bool
+
+structure SlotRec where
+  row : Nat
+  name : String
+  slot : Slot
+
+structure Parsed where
+  loaderFail : Bool := false
+  scanFail : Bool := false
+  order : List Nat := []
+  boot : List Nat := []
+  rows : List RowRec := []
+  nodes : List NodeRec := []
+  slots : List SlotRec := []
+
+def natOf (s : String) : Nat := s.toNat?.getD 0
+def intOf (s : String) : Int := s.toInt?.getD 0
+def natList (s : String) : List Nat := if s = "-" then [] else (s.splitOn ",").map natOf
+def hexOr (s : String) : Bytes := (fromHex s).getD []
+
+def parseMeths (s : String) : List Meth :=
+  if s = "." then [] else
+  (s.splitOn ",").filterMap fun m =>
+    match m.splitOn "/" with
+    | [n, i, o, r] => some { name := n, numIn := natOf i, numOut := natOf o, result := hexOr r }
+    | _ => none
+
+def parseKind (k t : String) : Kind :=
+  match k with
+  | "p" => .ptr (natOf t) | "i" => .iface (natOf t) | "P" => .slicePtr (natOf t) | "I" => .sliceIface (natOf t) | _ => .other
+
+def parseRec (p : Parsed) (rec : String) : Parsed :=
+  match (rec.splitOn " ").filter (· ≠ "") with
+  | "X" :: lf :: sf :: _ => { p with loaderFail := lf = "1", scanFail := sf = "1" }
+  | ["K", l] => { p with order := natList l }
+  | ["B", l] => { p with boot := natList l }
+  | ["R", idx, name, ty, impl, custom, primary, lazy, qual, meths, ocls, okey] =>
+    let pr : Prov := { id := natOf idx, name := hexOr name, ty := natOf ty, impl := natOf impl, custom := custom = "1",
+                       primary := primary = "1", qual := if qual = "~" then none else some (hexOr qual), meths := parseMeths meths }
+    { p with rows := p.rows ++ [{ prov := pr, lazy := lazy = "1",
+                                  ocls := if ocls = "p" then .prio else if ocls = "o" then .ord else .plain, okey := intOf okey }] }
+  | ["N", row, _ty, _cust, _q, _r, _ord, early, after, flt, cfg, wired] =>
+    { p with nodes := p.nodes ++ [{ row := natOf row, early := natOf early, after := natOf after, flt := natOf flt,
+                                    cfg := natOf cfg, wired := wired = "1" }] }
+  | ["F", row, sname, kind, target, tk, tag] =>
+    { p with slots := p.slots ++ [{ row := natOf row, name := sname,
+                                    slot := { holder := natOf row, kind := parseKind kind target, isFunc := tk = "f", tag := hexOr tag } }] }
+  | _ => p
+
+def parse (line : String) : Parsed :=
+  (line.splitOn " | ").foldl parseRec {}
+
+def showObj (o : Obj) : String := toString o.name ++ "#" ++ toString o.ver
+
+def showEv : Ev → String
+  | .new n => "n" ++ toString n | .conf n => "c" ++ toString n | .before n => "b" ++ toString n
+  | .aps n => "a" ++ toString n | .init n => "i" ++ toString n | .after n => "f" ++ toString n
+  | .early n => "e" ++ toString n
+
+/-- build the machine scenario from the parsed line -/
+def build (p : Parsed) : AppScen × List SlotRec :=
+  let byRow : Nat → Option RowRec := fun i => p.rows.find? (fun r => r.prov.id == i)
+  -- population in GetMetas enumeration order
+  let pop : List Prov := p.order.filterMap (fun i => (byRow i).map (·.prov))
+  let nodeOf : Nat → Option NodeRec := fun i => p.nodes.find? (fun n => n.row == i)
+  let slotsOf : Nat → List Slot := fun i => (p.slots.filter (fun s => s.row == i)).map (·.slot)
+  let names := p.rows.map (·.prov.id)
+  let eagerRows := (p.rows.filter (fun r => !r.lazy))
+  let eager := (isort (fun a b => bytesLt a.prov.name b.prov.name) eagerRows).map (·.prov.id)
+  let flt : Nat → Nat → Bool := fun i b => match nodeOf i with | some n => n.flt.testBit b | none => false
+  -- resolve every holder's points once (pure function of the scenario)
+  let resolved : List (Nat × Option (List M2.Point)) := names.map fun i =>
+    (i, (resolveAll pop (slotsOf i)).map (fun l => l.map fun rp =>
+      { cands := rp.cands, slice := rp.slice, required := rp.required, incompat := rp.incompat }))
+  let sc : Scen :=
+    { names := names, boot := p.boot, eager := eager,
+      points := fun i => match resolved.find? (fun x => x.1 == i) with | some x => x.2 | none => some []
+      wired := fun i => match nodeOf i with | some n => n.wired | none => true
+      logged := fun i => (nodeOf i).isSome
+      cfgOk := fun i => !(match nodeOf i with | some n => n.cfg == 2 | none => false) && !flt i 0 && !flt i 1
+      fBefore := fun i => flt i 2, fAps := fun i => flt i 3, fInit := fun i => flt i 4, fAfter := fun i => flt i 5,
+      fEarly := fun i => flt i 6,
+      earlyO := fun i => match nodeOf i with | some n => ⟨i, n.early⟩ | none => raw i
+      afterO := fun i => match nodeOf i with | some n => ⟨i, n.after⟩ | none => raw i }
+  let appSlots := p.slots.filter (fun s => s.name == "ApplicationRunners")
+  let appRow := match appSlots with | s :: _ => s.row | [] => 0
+  let rp := ((p.slots.filter (fun s => s.row == appRow)).findIdx? (fun s => s.name == "ApplicationRunners")).getD 0
+  ({ loaderFail := p.loaderFail, scanFail := p.scanFail, sc := sc, appRow := appRow, runnersPoint := rp,
+     runnerInfo := fun i => match byRow i with
+       | some r => (r.ocls, r.okey, flt i 7)
+       | none => (.plain, 0, false) }, p.slots)
+
+def pointIndex (slots : List SlotRec) (s : SlotRec) : Nat :=
+  ((slots.filter (fun x => x.row == s.row)).findIdx? (fun x => x.name == s.name)).getD 0
+
+def render (p : Parsed) (a : AppScen) (r : Result) : String :=
+  let st := match r.outcome with
+    | .ok => "ok" | .errConfig => "err.config" | .errFactory => "err.factory" | .errRefresh => "err.refresh" | .errRunners => "err.runners"
+  let evs := r.st.log.reverse.map showEv ++ r.invoked.map (fun x => "r" ++ toString x.obj.name)
+  let ev := if evs.isEmpty then "-" else joinWith "," evs
+  let base := "st=" ++ st ++ " ev=" ++ ev
+  if r.outcome == .ok then
+    let shown := p.slots.filter (fun s => s.name != "ApplicationRunners")
+    let fl := shown.map fun s =>
+      let objs := r.st.fields s.row (pointIndex p.slots s)
+      toString s.row ++ "." ++ s.name ++ ":" ++ (if objs.isEmpty then "-" else joinWith "+" (objs.map showObj))
+    let pubs := p.nodes.filterMap fun n =>
+      (r.st.l1 n.row).map fun o => toString n.row ++ ":" ++ showObj o
+    let _ := a
+    base ++ " fl=" ++ (if fl.isEmpty then "-" else joinWith ";" fl) ++ " pub=" ++ (if pubs.isEmpty then "-" else joinWith "," pubs)
+  else base
+
+def handle (line : String) : String :=
+  let p := parse line
+  let (a, _) := build p
+  render p a (appRun a)
+
 end Driver.Graph
